@@ -22,6 +22,7 @@ DESIGN = {
                  ("MC_PamsMarket_thorough", "MC_PamsMarket_thorough.cfg", 3600)],
 }
 N_RANDOM = {"quick": 500, "thorough": 12000}
+N_DEEP = {"quick": 100, "thorough": 6000}
 
 LEVEL_TEXT = {
     "C01": "model_checking", "C02": "model_checking", "C03": "model_checking", "C04": "model_checking",
@@ -48,6 +49,10 @@ def build_histories(tier, seed, prop):
     n = N_RANDOM[tier]
     for h in drive_book.generate(n, sub_seed(seed, "book-random")):
         h["src"] = "random"
+        hs.append(h)
+    # deep books: heaps of three and more levels, cancels of non-best orders followed by partial sweeps
+    for h in drive_book.generate(N_DEEP[tier], sub_seed(seed, "book-deep"), flavour="deep"):
+        h["src"] = "random-deep"
         hs.append(h)
     try:
         from . import replay_book
